@@ -15,7 +15,8 @@ Inductive action :=
   | APlace (name sel : Z) (sd : side) (t : otspec) (mv : option Z)
   | ACancel (name : Z) (red : option Z)
   | AUpdate (name : Z) (p : persist)
-  | AReplace (name : Z) (price : Z) (mv : option Z).
+  | AReplace (name : Z) (price : Z) (mv : option Z)
+  | AOn (mid : Z) (a : action)    (* the same request issued on ANOTHER market than the one whose update is being processed *).
 
 (* per-market state *)
 Record analytics := { an_sel : Z; an_pv : list (Z * Z) (* cached volume *); an_tv : list (Z * Z); an_traded : traded }.
@@ -370,7 +371,7 @@ Definition order_validation_ok (o : sorder) : bool :=
   | _ => (0 <? so_liab_n o) && ((so_liab_n o * 100) mod so_liab_d o =? 0) && ((so_liab_n o) mod so_liab_d o =? 0)
   end.
 
-Definition request (cf : config) (now : Z) (strat : Z) (mid : Z) (s : sim) (a : action) : sim :=
+Definition request0 (cf : config) (now : Z) (strat : Z) (mid : Z) (s : sim) (a : action) : sim :=
   match get_market mid (s_markets s) with
   | None => s
   | Some m =>
@@ -429,7 +430,16 @@ Definition request (cf : config) (now : Z) (strat : Z) (mid : Z) (s : sim) (a : 
                | _, _ => s
                end
         end
+    | AOn _ _ => s
     end
+  end.
+
+(* a request names its market: the one being processed, or (AOn) another one of the same framework; the time of the request is
+   the time of the update being processed in both cases *)
+Definition request (cf : config) (now : Z) (strat : Z) (mid : Z) (s : sim) (a : action) : sim :=
+  match a with
+  | AOn mid' a' => request0 cf now strat mid' s a'
+  | _ => request0 cf now strat mid s a
   end.
 
 (* ---------- one market book ---------- *)
